@@ -10,12 +10,13 @@ type bucket []byte
 
 type reader struct {
 	m map[byte][]bucket
+	n int // number of values read so far
 }
 
 func newReader(r io.Reader) (*reader, error) {
 	m, err := read(r)
 
-	return &reader{m}, err
+	return &reader{m: m}, err
 }
 
 func (r *reader) readByte(tag byte) (byte, error) {
@@ -51,6 +52,7 @@ func (r *reader) readBytes(tag byte) ([]byte, error) {
 	} else {
 		delete(r.m, tag)
 	}
+	r.n++
 
 	return b, nil
 }
